@@ -1283,7 +1283,7 @@ class QasmOutput:
         elif gate.name == "CRX":
             gate_def = "gate crx(theta) a,b { cu3(theta,-pi/2,pi/2) a,b; }"
         elif gate.name == "SQRTNOT":
-            gate_def = "gate sqrtnot a {h a; u1(-pi/2) a; h a; }"
+            gate_def = "gate sqrtnot a {h a; u1(pi/2) a; h a; }"
         elif gate.name == "CS":
             gate_def = "gate cs a,b { cu1(pi/2) a,b; }"
         elif gate.name == "CT":
